@@ -13,10 +13,18 @@
 #include <lauxlib.h>
 #include <lua.h>
 #include <lualib.h>
+#include <pthread.h>
 
 static const char *libluajit = "libluajit-5.1.so";
 static void *luajit_handle;
 static lua_State *L;
+
+/*
+ * There is one lua_State for the whole process and a lua_State must not be
+ * used by two threads at once: at record time the callbacks come from every
+ * thread of the traced program.
+ */
+static pthread_mutex_t luajit_state_lock = PTHREAD_MUTEX_INITIALIZER;
 
 static lua_State *(*dlluaL_newstate)(void);
 static void (*dlluaL_openlibs)(lua_State *L);
@@ -257,9 +265,12 @@ static int luajit_uftrace_begin(struct script_info *info)
 
 static int luajit_uftrace_entry(struct script_context *sc_ctx)
 {
+	pthread_mutex_lock(&luajit_state_lock);
+
 	dllua_getglobal(L, "uftrace_entry");
 	if (dllua_isnil(L, -1)) {
 		dllua_pop(L, 1);
+		pthread_mutex_unlock(&luajit_state_lock);
 		return -1;
 	}
 
@@ -270,17 +281,22 @@ static int luajit_uftrace_entry(struct script_context *sc_ctx)
 	if (dllua_pcall(L, 1, 0, 0) != 0) {
 		pr_dbg("uftrace_entry failed: %s\n", dllua_tostring(L, -1));
 		dllua_pop(L, 1);
+		pthread_mutex_unlock(&luajit_state_lock);
 		return -1;
 	}
 
+	pthread_mutex_unlock(&luajit_state_lock);
 	return 0;
 }
 
 static int luajit_uftrace_exit(struct script_context *sc_ctx)
 {
+	pthread_mutex_lock(&luajit_state_lock);
+
 	dllua_getglobal(L, "uftrace_exit");
 	if (dllua_isnil(L, -1)) {
 		dllua_pop(L, 1);
+		pthread_mutex_unlock(&luajit_state_lock);
 		return -1;
 	}
 
@@ -292,17 +308,22 @@ static int luajit_uftrace_exit(struct script_context *sc_ctx)
 	if (dllua_pcall(L, 1, 0, 0) != 0) {
 		pr_dbg("uftrace_exit failed: %s\n", dllua_tostring(L, -1));
 		dllua_pop(L, 1);
+		pthread_mutex_unlock(&luajit_state_lock);
 		return -1;
 	}
 
+	pthread_mutex_unlock(&luajit_state_lock);
 	return 0;
 }
 
 static int luajit_uftrace_event(struct script_context *sc_ctx)
 {
+	pthread_mutex_lock(&luajit_state_lock);
+
 	dllua_getglobal(L, "uftrace_event");
 	if (dllua_isnil(L, -1)) {
 		dllua_pop(L, 1);
+		pthread_mutex_unlock(&luajit_state_lock);
 		return -1;
 	}
 
@@ -317,24 +338,32 @@ static int luajit_uftrace_event(struct script_context *sc_ctx)
 	if (dllua_pcall(L, 1, 0, 0) != 0) {
 		pr_dbg("uftrace_event failed: %s\n", dllua_tostring(L, -1));
 		dllua_pop(L, 1);
+		pthread_mutex_unlock(&luajit_state_lock);
 		return -1;
 	}
 
+	pthread_mutex_unlock(&luajit_state_lock);
 	return 0;
 }
 
 static int luajit_uftrace_end(void)
 {
+	pthread_mutex_lock(&luajit_state_lock);
+
 	dllua_getglobal(L, "uftrace_end");
 	if (dllua_isnil(L, -1)) {
 		dllua_pop(L, 1);
+		pthread_mutex_unlock(&luajit_state_lock);
 		return -1;
 	}
 	if (dllua_pcall(L, 0, 0, 0) != 0) {
 		pr_dbg("uftrace_end failed: %s\n", dllua_tostring(L, -1));
 		dllua_pop(L, 1);
+		pthread_mutex_unlock(&luajit_state_lock);
 		return -1;
 	}
+
+	pthread_mutex_unlock(&luajit_state_lock);
 	return 0;
 }
 
